@@ -1056,6 +1056,12 @@ func (s *Sim) finalC10(li int, name string, c *chainState) {
 		a.n++
 		a.names = append(a.names, o.Name)
 	}
+	// a forced revert runs with unbounded overdraft: it can never be short of funds
+	for _, o := range s.ledgerOps(li) {
+		if o.Op.Kind == "revert" && o.Op.Force && o.Returned && o.ErrClass == "machine:insufficient-funds" {
+			s.violate("C10", "forced-revert-refused-for-funds", fmt.Sprintf("%s: forced revert %s of transaction %s was refused with insufficient funds", name, o.Name, o.TargetTx), "forced")
+		}
+	}
 	ts := make([]string, 0, len(byT))
 	for k := range byT {
 		ts = append(ts, k)
@@ -1258,7 +1264,7 @@ func opSources(o *OpRecord) []string {
 	switch o.Op.Kind {
 	case "script":
 		switch o.Op.Tpl {
-		case tplWorld, tplSetAccountMeta, tplRaw, tplArith, tplPortionVar, tplMetaVar:
+		case tplWorld, tplSetAccountMeta, tplRaw, tplArith, tplPortionVar, tplMetaVar, tplAssetVar:
 			return nil
 		case tplOrdered, tplMax, tplOrderedVars:
 			return []string{acctName(o.Op.Src), acctName(o.Op.Src2)}
